@@ -50,6 +50,8 @@ enum Dev {
 #[derive(Default)]
 struct Transport {
     devs: Vec<Dev>,
+    /// when > 0, an undeviated poll_write takes at most this many bytes (a slow peer)
+    chunk: usize,
     written: Vec<u8>,
     w_calls: usize,
     f_calls: usize,
@@ -85,6 +87,7 @@ impl AsyncWrite for Transport {
         self.seq += 1;
         assert!(!buf.is_empty(), "Framed called poll_write with an empty buffer");
         let n = match self.w_ans(k) {
+            WAns::All if self.chunk > 0 => buf.len().min(self.chunk),
             WAns::All => buf.len(),
             WAns::One => 1,
             WAns::Half => (buf.len() / 2).max(1),
@@ -177,6 +180,8 @@ struct Case {
     sizes: Vec<usize>,
     ops: Vec<Op>,
     devs: Vec<Dev>,
+    /// bytes taken per undeviated poll_write (0: everything)
+    trickle: usize,
 }
 
 fn case_json(c: &Case) -> Value {
@@ -184,6 +189,7 @@ fn case_json(c: &Case) -> Value {
         "sizes": c.sizes,
         "ops": c.ops.iter().map(|o| format!("{:?}", o)).collect::<Vec<_>>(),
         "devs": c.devs.iter().map(|d| format!("{:?}", d)).collect::<Vec<_>>(),
+        "trickle": c.trickle,
     })
 }
 
@@ -202,7 +208,7 @@ fn case_from(v: &Value) -> Case {
         }
     };
     let devs = v["devs"].as_array().unwrap().iter().map(|d| parse_dev(d.as_str().unwrap())).collect();
-    Case { sizes, ops, devs }
+    Case { sizes, ops, devs, trickle: v["trickle"].as_u64().unwrap_or(0) as usize }
 }
 
 struct Outcome {
@@ -218,7 +224,7 @@ struct Outcome {
 /// Runs one case; returns Err((signature, message)) on a violation. `legal` reports whether
 /// the op list respects the Sink contract (callers only generate legal lists).
 fn run_case(c: &Case, verbose: bool) -> Result<Outcome, (&'static str, String)> {
-    let t = Transport { devs: c.devs.clone(), ..Default::default() };
+    let t = Transport { devs: c.devs.clone(), chunk: c.trickle, ..Default::default() };
     let mut framed = Box::pin(Framed::new(t, BytesCodec));
     let w = CountWaker::new(0);
     let waker = w.waker();
@@ -529,7 +535,7 @@ pub fn run(args: &Args) -> i32 {
             if has_conv && d.len() > 1 {
                 continue; // conversions: at most one transport deviation
             }
-            let c = Case { sizes: sizes.clone(), ops: ops.clone(), devs: d.clone() };
+            let c = Case { sizes: sizes.clone(), ops: ops.clone(), devs: d.clone(), trickle: 0 };
             p.runs += 1;
             match mcutil::quiet_catch(|| run_case(&c, false)) {
                 Ok(Ok(o)) => {
@@ -557,6 +563,68 @@ pub fn run(args: &Args) -> i32 {
         }
         p
     });
+    // slow peer: every undeviated poll_write takes only `chunk` bytes, so that one flush needs
+    // tens to thousands of partial writes in a row (budgets, counters and loop bounds inside the
+    // flush loop have their corners there); plain op lists, at most one further deviation
+    let trickle_cfgs: Vec<(usize, Vec<usize>)> = vec![(1, vec![1, 40, 300]), (1, vec![8193]), (128, vec![1023, 8193]), (3, vec![100, 1025])];
+    let mut trickle_work: Vec<(usize, Vec<usize>, usize)> = vec![];
+    for (chunk, alpha) in &trickle_cfgs {
+        let mut sl: Vec<Vec<usize>> = vec![];
+        for a in alpha {
+            sl.push(vec![*a]);
+            for b in alpha {
+                sl.push(vec![*a, *b]);
+                if *chunk != 1 || alpha.len() > 1 {
+                    for c in alpha {
+                        sl.push(vec![*a, *b, *c]);
+                    }
+                }
+            }
+        }
+        for sizes in sl {
+            for l in 0..n_plain {
+                trickle_work.push((*chunk, sizes.clone(), l));
+            }
+        }
+    }
+    let trickle_parts = mcutil::par_map(args.threads, &trickle_work, |_, (chunk, sizes, l)| {
+        let mut p = Part { runs: 0, flush_ok: 0, close_ok: 0, backpressure: 0, dev_hit: 0, ops: 0, io_calls: 0, vios: vec![] };
+        let ops = run_lists[*l];
+        if ops.iter().filter(|o| **o == Op::Send).count() != sizes.len() {
+            return p;
+        }
+        for d in devs.iter().filter(|d| d.len() <= 1) {
+            let c = Case { sizes: sizes.clone(), ops: ops.clone(), devs: d.clone(), trickle: *chunk };
+            p.runs += 1;
+            match mcutil::quiet_catch(|| run_case(&c, false)) {
+                Ok(Ok(o)) => {
+                    p.flush_ok += o.flush_ok as u64;
+                    p.close_ok += o.close_ok as u64;
+                    p.backpressure += o.backpressure_seen as u64;
+                    p.dev_hit += 1;
+                    p.ops += o.ops as u64;
+                    p.io_calls += o.io_calls as u64;
+                }
+                Ok(Err((sig, msg))) => {
+                    let full = !p.vios.iter().any(|v| v.signature == sig);
+                    p.vios.push(Violation { signature: sig.to_string(), summary: format!("{msg} [transport takes {chunk} byte(s) per write]"), replay: if full { case_json(&c) } else { Value::Null } });
+                }
+                Err(pn) => {
+                    let msg = mcutil::panic_message(&*pn);
+                    if msg.contains("illegal op list") {
+                        p.runs -= 1;
+                    } else {
+                        p.vios.push(Violation { signature: "panic".into(), summary: msg, replay: case_json(&c) });
+                    }
+                }
+            }
+        }
+        p
+    });
+    let trickle_runs: u64 = trickle_parts.iter().map(|p| p.runs).sum();
+    rep.set("slow_peer_runs", trickle_runs);
+    rep.set("slow_peer_rule", "plain op lists x item sizes {1,40,300} / {8193} at 1 byte per write, {1023,8193} at 128, {100,1025} at 3 bytes per write (up to 8193 partial writes in one flush) x at most one further transport deviation; same oracle");
+    let parts: Vec<Part> = parts.into_iter().chain(trickle_parts).collect();
     let mut runs = 0;
     let (mut fo, mut co, mut bp, mut dh) = (0, 0, 0, 0);
     let (mut ops, mut ioc) = (0u64, 0u64);
